@@ -75,10 +75,10 @@ fn strat(t: Tier) -> proptest::strategy::BoxedStrategy<FragCase> {
 }
 
 fn run_long_frag(ctx: &Ctx) -> SubReport {
-    let mk = |shard: usize, shards: usize| crate::fragcase::long_cases().into_iter().enumerate().filter(move |(i, _)| i % shards.min(4) == shard && shard < 4).map(|(_, c)| c);
+    let mk = |shard: usize, shards: usize| crate::fragcase::long_cases().into_iter().enumerate().filter(move |(i, _)| i % shards.min(6) == shard && shard < 6).map(|(_, c)| c);
     let mut r = run_enumerated(ctx, "long_sequences", &mk, &eval);
     r.exhaustive = false;
-    r.notes.push("fixed list: a 70 000-sample segment, 400 two-sample segments with empty flushes, 3 MiB / 1 MiB+1 / empty samples, 255/256/257/65 536 samples per segment".into());
+    r.notes.push("fixed list: 70 000- and 140 000-sample segments, 400 two-sample segments with empty flushes, a 66 MiB fragment between ordinary ones, 8 MiB+1 / 3 MiB / 1 MiB+1 / empty samples, 255/256/257/65 536 samples per segment".into());
     r
 }
 fn replay_long_frag(v: &serde_json::Value) -> Result<Outcome, String> {
